@@ -37,4 +37,34 @@ theorem nsim_total (calls : List (Bool × List (Nat × Nat))) (h : CallsOK calls
     (history calls).nBatches = (((calls.map (·.2)).flatten).map (·.2)).sum :=
   nsim_total' calls h
 
+/-! ### the numbers: importance weights (any ordered field, any component density) -/
+section weights
+variable {F Θ : Type} [Field F] [LinearOrder F] [IsStrictOrderedRing F]
+
+/-- the mixture weights are normalised: with a constant component density `1` the mixture density is `1` -/
+theorem gm_density_normalised (means : List Θ) (w : List F) (x : Θ) (hlen : w.length = means.length)
+    (hsum : sumF w ≠ 0) : gmDensity (fun _ _ => (1 : F)) means w x = 1 :=
+  gm_density_normalised' means w x hlen hsum
+
+/-- **the new weights do not depend on the scale of the previous population's weights** -/
+theorem smc_weight_scale_invariant (prior : Θ → F) (kernel : Θ → Θ → F) (means : List Θ) (w : List F)
+    (x : Θ) (c : F) (hc : c ≠ 0) :
+    smcWeight prior kernel means (w.map (c * ·)) x = smcWeight prior kernel means w x :=
+  smc_weight_scale_invariant' prior kernel means w x c hc
+
+/-- **every accepted particle inside the prior support gets a strictly positive weight**: non-negative
+previous weights with positive sum, positive component densities -/
+theorem smc_weight_pos (prior : Θ → F) (kernel : Θ → Θ → F) (means : List Θ) (w : List F) (x : Θ)
+    (hlen : w.length = means.length) (hw : ∀ v ∈ w, 0 ≤ v) (hsum : 0 < sumF w)
+    (hk : ∀ m ∈ means, 0 < kernel x m) (hp : 0 < prior x) :
+    0 < smcWeight prior kernel means w x :=
+  smc_weight_pos' prior kernel means w x hlen hw hsum hk hp
+
+/-- a particle outside the prior support has weight zero -/
+theorem smc_weight_zero_outside (prior : Θ → F) (kernel : Θ → Θ → F) (means : List Θ) (w : List F)
+    (x : Θ) (hp : prior x = 0) : smcWeight prior kernel means w x = 0 :=
+  smc_weight_zero_outside' prior kernel means w x hp
+
+end weights
+
 end ElfiVerif.Smc
